@@ -101,6 +101,59 @@ def run(ctx):
                 ctx.violation('correspondence', '%s: number of variables %d differs from the family model (%s)' % (fam['name'], n, rep[0]),
                               dict(input=dict(family=fam['name'], params=p), theorem='C10_rendering_in_range'), False, site='family-numvar-model', cls=fam['name'])
 
+    # ---------- thresholds: sizes at which index arithmetic, caches and "fast paths" switch ----------
+    from cnfgen import graphs as _g
+
+    def star(n):
+        G = cnfgen.Graph(n)
+        for v in range(2, n + 1):
+            G.add_edge(1, v)
+        return G
+
+    def cbip(l, r):
+        B = cnfgen.BipartiteGraph(l, r)
+        for u in range(1, l + 1):
+            for v in range(1, r + 1):
+                B.add_edge(u, v)
+        return B
+    log2up = lambda m: (m - 1).bit_length()
+    thr = []
+    for n in (63, 64, 65, 127, 128, 129, 255, 256, 257, 300):
+        thr.append(('php 3x%d' % n, lambda fc, n=n: cnfgen.PigeonholePrinciple(3, n, formula_class=fc), 3 * n))
+        thr.append(('php %dx2' % n, lambda fc, n=n: cnfgen.PigeonholePrinciple(n, 2, formula_class=fc), 2 * n))
+        thr.append(('gphp complete 2x%d' % n, lambda fc, n=n: cnfgen.GraphPigeonholePrinciple(cbip(2, n), formula_class=fc), 2 * n))
+        thr.append(('stone path(3) %d stones' % n, lambda fc, n=n: cnfgen.StoneFormula(_g.dag_path(3), n, formula_class=fc), n + _g.dag_path(3).number_of_vertices() * n))
+        thr.append(('kcolor star(%d) 2' % n, lambda fc, n=n: cnfgen.GraphColoringFormula(star(n), 2, formula_class=fc), 2 * n))
+        thr.append(('matching star(%d)' % n, lambda fc, n=n: cnfgen.PerfectMatchingPrinciple(star(n), formula_class=fc), n - 1))
+        thr.append(('kclique star(%d) 2' % n, lambda fc, n=n: cnfgen.CliqueFormula(star(n), 2, formula_class=fc), 2 * n))
+        thr.append(('rphp 2 %d 2' % n, lambda fc, n=n: cnfgen.RelativizedPigeonholePrinciple(2, n, 2, formula_class=fc), 2 * n + n * 2 + n))
+    for m in (255, 256, 257, 1023, 1024, 1025, 2048, 2049, 4097):
+        thr.append(('bphp 3x%d' % m, lambda fc, m=m: cnfgen.BinaryPigeonholePrinciple(3, m, formula_class=fc), 3 * log2up(m)))
+    for b in (1024, 2048):
+        thr.append(('cpls 1 %d 2' % b, lambda fc, b=b: cnfgen.CPLSFormula(1, b, 2, formula_class=fc), 1 * b * 2 + 1 * b * log2up(b) + b * 1))
+    if quick:
+        thr = [t for t in thr if any(x in t[0] for x in ('65', '129', '257', '1025', '2048', '2049'))]
+    for name, build, doc in thr:
+        for fc in (CNF, OPB):
+            r = outcome(build, fc)
+            ctx.count('thresholds', (name, fc.__name__), nontrivial=True, sample=dict(instance=name, cls=fc.__name__, documented_numvar=doc))
+            ctx.tally('threshold family', name.split()[0])
+            if r[0] != 'ok':
+                ctx.violation('counterexample', '%s (%s) raised %s' % (name, fc.__name__, r[1]), dict(input=dict(instance=name, formula_class=fc.__name__), error=r[1:]), True,
+                              site='threshold-raises', cls=name.split()[0])
+                continue
+            F = r[1]
+            mx, bad = scan(F, type(F).__name__ == 'OPB')
+            if bad is not None:
+                ctx.violation('counterexample', '%s (%s): literal %r outside 1..%d' % (name, fc.__name__, bad, F.number_of_variables()),
+                              dict(input=dict(instance=name, formula_class=fc.__name__), literal=bad, numvar=F.number_of_variables()), True, site='threshold-literal', cls=name.split()[0])
+            elif F.number_of_variables() != doc:
+                ctx.violation('counterexample', '%s (%s): %d variables, documented %d' % (name, fc.__name__, F.number_of_variables(), doc),
+                              dict(input=dict(instance=name, formula_class=fc.__name__), numvar=F.number_of_variables(), documented=doc), True, site='threshold-numvar', cls=name.split()[0])
+            elif mx != doc and not name.startswith(('matching', 'kclique', 'kcolor')) and len(F) > 0 and doc > 0:
+                ctx.violation('counterexample', '%s (%s): the largest variable mentioned is %d although %d are declared and all are used by this family' % (name, fc.__name__, mx, doc),
+                              dict(input=dict(instance=name, formula_class=fc.__name__), largest_mentioned=mx, numvar=doc), True, site='threshold-unused-top', cls=name.split()[0])
+
     # ---------- transformation chains ----------
     T = [
         ('xor', lambda F, k: cnfgen.XorSubstitution(F, k), lambda N, k, F: k * N), ('or', lambda F, k: cnfgen.OrSubstitution(F, k), lambda N, k, F: k * N),
@@ -164,10 +217,13 @@ def history_runs(ctx, CNF, OPB):
         F = fc()
         mentioned = 0
         ops = []
+        kept = []
         ok = True
         for _ in range(rng.randint(1, 12)):
             want = None
-            kind = rng.choice(['single', 'block', 'mapping', 'binmap', 'comb', 'clause', 'clause', 'unchecked', 'raise', 'bip', 'graph', 'linear', 'linear'])
+            kind = rng.choice(['single', 'block', 'mapping', 'binmap', 'comb', 'clause', 'clause', 'unchecked', 'raise', 'bip', 'graph', 'linear', 'linear', 'bip-reuse', 'sparse-reuse'])
+            if kind in ('bip-reuse', 'sparse-reuse') and not kept:
+                kind = 'bip'
             before = F.number_of_variables()
             try:
                 if kind == 'clause':
@@ -251,7 +307,21 @@ def history_runs(ctx, CNF, OPB):
                         for v in range(1, B.right_order() + 1):
                             if rng.random() < 0.5:
                                 B.add_edge(u, v)
+                    kept.append(B)
                     g = list(F.new_bipartite_edges(B))
+                    want = B.number_of_edges()
+                    ops.append([Sym('group'), len(g)])
+                elif kind in ('bip-reuse', 'sparse-reuse'):
+                    # the SAME graph object serves a second group, at another offset
+                    B = rng.choice(kept)
+                    grp = F.new_bipartite_edges(B) if kind == 'bip-reuse' else F.new_sparse_mapping(B)
+                    g = list(grp)
+                    want = B.number_of_edges()
+                    if g and sorted(grp(u, v) for (u, v) in B.edges()) != g:
+                        ctx.violation('counterexample', 'a second group over the same bipartite graph maps its edges to %s, its identifiers are %s' % (sorted(grp(u, v) for (u, v) in B.edges())[:6], g[:6]),
+                                      dict(input=dict(ops=str(ops), formula_class=fc.__name__)), True, site='history-reuse', cls=kind)
+                        ok = False
+                        break
                     ops.append([Sym('group'), len(g)])
                 else:
                     G = cnfgen.Graph(rng.randint(0, 4))
